@@ -49,7 +49,7 @@ def run_ion(exe, d, cf, seed, niter=2, timeout=45):
     p = rhdparams.ion_param(d, ncell=ncell, nsub=n, periodic=tuple(bool(x) for x in cf["per"]), nphoton=cf["np"],
                             niter=niter, discrete="D" in cf["src"], continuous="C" in cf["src"],
                             diffuse=bool(cf["diffuse"]), copy_level=cf["copy"], seed=seed,
-                            density="100. cm^-3")
+                            density="100. cm^-3", nsources=cf.get("nsrc", 1))
     tr = os.path.join(d, "trace.ndjson")
     env = {"CMI_VERIF_TRACE": tr, "VERIF_SEED": str(seed), "CMI_VERIF_MODE": "jitter" if cf["nthr"] > 1 else "off",
            "OMP_NUM_THREADS": str(cf["nthr"]), "OMP_WAIT_POLICY": "passive"}
@@ -100,7 +100,7 @@ def run(c):
     cfgs = configs(rd)
     vlib.log("configs enumerated")
     c.cov["configurations_total"] = len(cfgs)
-    nrun = 14 if tier == "quick" else 160
+    nrun = 16 if tier == "quick" else 160
     # corner cases always present: every source mix with and without diffuse field, copies, many threads
     must = []
     for src in ("D", "C", "DC"):
@@ -110,6 +110,8 @@ def run(c):
             must.append(rng.choice(cand))
     must.append(rng.choice([x for x in cfgs if x["copy"] == 2 and x["nthr"] == 8 and x["np"] == 20001 and x["src"] == "D"]))
     must.append(rng.choice([x for x in cfgs if x["nthr"] == 1 and x["np"] == 999]))
+    must.append(rng.choice([x for x in cfgs if x["nsrc"] == 3 and x["copy"] >= 1 and x["np"] in (7777, 999) and max(x["n"]) > 1]))
+    must.append(rng.choice([x for x in cfgs if x["nsrc"] == 3 and x["copy"] == 0 and x["nthr"] >= 4 and max(x["n"]) > 1]))
     sample = must + rng.sample([x for x in cfgs if x not in must], max(0, nrun - len(must)))
 
     # ---- 3. real iterations ------------------------------------------------------------
